@@ -290,6 +290,9 @@ func genC20(t *rapid.T) C20Case {
 				Nth:   rapid.IntRange(1, 4).Draw(t, "fnth"), Count: rapid.IntRange(1, 4).Draw(t, "fcount"),
 				Kind: rapid.SampledFrom([]sim.FaultKind{sim.FaultReject, sim.FaultTimeout, sim.FaultConflict, sim.FaultCommitTimeout}).Draw(t, "fkind"),
 			}
+			if f.Kind == sim.FaultCommitTimeout && (f.Actor == "" || f.Actor == "jobqueue") && (f.Verb == "" || f.Verb == "updateStatus") {
+				f.Actor, f.Name = "job", "excluded" // open finding E2-start-commit-timeout, excluded by construction
+			}
 			fs = append(fs, f)
 		}
 		c.Faults = append(c.Faults, fs)
